@@ -266,6 +266,19 @@ impl Check for C05 {
             let alpha = toks(&["-é", "-a", "-ж", "-éa", "-aж", "-éx", "-aéx", "-жжx", "-xé", "w", "--", "-z"]);
             out.push(serde_json::to_value(Unit { opts: l.to_opts(), len: tier.pick(4, 5), family: "loose-non-ascii-shorts".into(), alpha, no_ledger: true, removal: true }).unwrap());
         }
+        // counted occurrences of a typed item, of a guarded positional and of a group: an
+        // occurrence that cannot be counted is not dropped
+        {
+            let n = P::arg(Names::both('n', "num"), Ty::U32);
+            let grp = P::Seq(vec![P::ReqFlag(Names::short('a')), P::ReqFlag(Names::short('b'))]);
+            for (d, alpha) in [
+                (P::Count(n.clone().bx()), toks(&["-n=1", "-n=x", "-n", "1", "-v"])),
+                (P::Count(P::Guard(P::pos(Ty::U32).bx(), GuardK::Lt10).bx()), toks(&["1", "2", "50", "x", "-v"])),
+                (P::Count(grp.bx()), toks(&["-a", "-b", "-v", "-ab"])),
+            ] {
+                out.push(serde_json::to_value(Unit { opts: Opts::new(P::Seq(vec![P::Switch(Names::short('v')), d])), len: tier.pick(4, 5), family: "loose-counted".into(), alpha, no_ledger: true, removal: true }).unwrap());
+            }
+        }
         // an adjacent group inside an adjacent group: `--tag (-x P)..`
         {
             let pos = |m: &str| P::Pos { ty: Ty::Os, strict: Strict::Any, metavar: m.into(), help: None };
